@@ -49,6 +49,9 @@ CHECKS = {
  "C12": ("bounded-exhaustive robustness menus (E1) and token-sequence exploration continued into build (E3), each case evaluated in a resource-limited worker subprocess",
          "Every numeric position x a boundary-integer alphabet (singly and all pairs per template), every identifier position x an identifier alphabet (raw, generic, non-ASCII, keywords), every known attribute name x 10 shapes x 12 positions, structural oddities, the dependency graphs of C10, public-API call sequences (up to 3 add_module calls x 4 path kinds, then build), and every token sequence the parser accepts, all at widths 4 and 8 through parse, add_module, build and emit under catch_unwind inside worker processes with a 4 GiB address-space limit and a no-progress watchdog; every rejected token text up to length 3 through add_file must report path:line:column inside the file. Outcome Ok/Err is fine; panic, abort, stall or memory kill is a violation attributed to the case and confirmed by a solitary re-run.",
          "Resource use is judged by fixed generous caps, not asymptotically; table-sized numeric positions are capped (4096 quick / 65536 thorough).", "DESIGN.md §6 C12"),
+ "C05": ("bounded-exhaustive enumeration of impl blocks (E1); emitted wrappers executed on the host against recording stubs mapped at the declared absolute addresses (X), signatures read with syn (S)",
+         "Every receiver form x every argument-type vector of length 0..3 over five integer/pointer types (rotations at lengths 4..6) x five return types, addresses from an executable alphabet in three spellings: the real emitted wrapper is compiled (conventions normalised to C) and run; a 23-byte stub mmap'ed at the declared address records the call: exactly one call, at that address, receiver = object address, arguments in order (masked to width), return value propagated. Wrapper signature and address literal are checked with syn at both widths; the rejection menu (no address, unresolvable parameter/return type, index on an impl function) must be Err.",
+         "SysV x86-64 register assignment for extern \"C\"; execution on the 64-bit host only.", "DESIGN.md §6 C05"),
 }
 
 NOT_YET = {
